@@ -720,8 +720,6 @@ func (t *Transport) newClientConn(c net.Conn, singleUse bool) (*ClientConn, erro
 	var headerTableSize uint32 = initialHeaderTableSize
 	for _, setting := range t.Settings {
 		switch setting.ID {
-		case http2.SettingMaxFrameSize:
-			cc.maxFrameSize = setting.Val
 		case http2.SettingMaxHeaderListSize:
 			t.MaxHeaderListSize = setting.Val
 		case http2.SettingHeaderTableSize:
